@@ -106,11 +106,12 @@ class RuleOrdering:
         processed = set()
         res = {}
         res["S"] = 0
-        for symbol in arborescence["S"]:
-            if symbol not in processed:
-                res[symbol] = 1
-                processed.add(symbol)
-                to_process.put(symbol)
+        if "S" in arborescence:
+            for symbol in arborescence["S"]:
+                if symbol not in processed:
+                    res[symbol] = 1
+                    processed.add(symbol)
+                    to_process.put(symbol)
         while not to_process.empty():
             current = to_process.get()
             for symbol in arborescence[current]:
